@@ -129,8 +129,11 @@ def check_meta(dist, Y, X, x):
     return out, n
 
 
-def check_dist(p, L, mu, dtype):
+def check_dist(p, L, mu, dtype, scale=1.0):
     S = spaces.sigma_of(L)
+    if scale != 1.0:          # covariance * scale, mean * sqrt-free power of two: still exact, well conditioned at any scale
+        S = [[v * scale for v in row] for row in S]
+        mu = [m * 4.0 for m in mu]
     dist = make(mu, S, dtype)
     muF, SF = Q.vec(mu), Q.mat(S)
     fails, n = [], 0
@@ -216,6 +219,13 @@ def run_unit(unit):
         for dtype, means in (("float", spaces.MEANS[p]), ("int", INT_MEANS[p])):
             for mu in means:
                 fails, n = check_dist(p, L, mu, dtype)
+                if dtype == "float" and mu is means[-1] and p >= 3 and (sum(map(sum, L)) % 4 == 0):
+                    # scale-invariance spot checks: variances of order 2^-12 and 2^10
+                    for sc in (2.0 ** -12, 2.0 ** 10):
+                        f2, n2 = check_dist(p, L, mu, dtype, scale=sc)
+                        n += n2
+                        acc.extra["scaled_distributions"] += 1
+                        fails += [(sig, msg, dict(sub, scale=sc)) for sig, msg, sub in f2]
                 acc.states += 1
                 acc.transitions += n
                 acc.traces += 1
@@ -235,6 +245,9 @@ def replay(kind, case):
         return check_error(case)
     p, L, mu, dtype, sub = case["p"], case["L"], case["mu"], case["dtype"], case["sub"]
     S = spaces.sigma_of(L)
+    if sub.get("scale"):
+        S = [[v * sub["scale"] for v in row] for row in S]
+        mu = [m * 4.0 for m in mu]
     dist = make(mu, S, dtype)
     muF, SF = Q.vec(mu), Q.mat(S)
     if sub["style"] == "meta":
@@ -248,7 +261,7 @@ def describe(tier, seed):
     return {
         "technique": "exhaustive small-scope input enumeration on the real code vs exact rational (Fraction) Gaussian conditioning",
         "rule": "every Sigma = L L^T with lower-triangular L (off-diagonals in {-1,0,1}, diagonal in {1,2}) for p<=3 (216 at p=3) and a p=4 "
-                "family (diag fixed; quick: every 27th, thorough: 1458), 2 float and 2 int mean vectors; every ordered pair of disjoint index "
+                "family (diag fixed; quick: every 27th, thorough: 1458), 2 float and 2 int mean vectors, plus the same covariances scaled by 2^-12 and 2^10 for a quarter of them; every ordered pair of disjoint index "
                 "sequences (Y non-empty, X possibly empty, every permutation) x every x in {0,1,-0.5}^|X|, in list / ndarray / scalar argument "
                 "styles; marginal for every ordered index sequence; metamorphic relations (condition-on-nothing, marginal composition, two-step "
                 "conditioning for every split); error contract exhaustively for p<=3 (every overlapping (Y,X), every |x| != |X| up to 3, every "
